@@ -1,7 +1,59 @@
-//! TrueStrengthIndex — reference model (TODO).
+//! TrueStrengthIndex. Doc: 2 values — `main` value in [-1, 1], `signal line` value in [-1, 1].
+//! Linked page (wikipedia): TSI = EMA(EMA(m, long), short) / EMA(EMA(|m|, long), short), m = one-step
+//! change of the source (the documented range [-1, 1] fixes the scale: no factor 100);
+//! the signal line is an EMA (of length `period3`) of the TSI.
+//! 3 signals:
+//!   #0 main value crosses the upper `zone` upwards: full sell; crosses the lower `-zone` downwards: full buy;
+//!   #1 main value crosses the zero line upwards: full buy; downwards: full sell;
+//!   #2 main value crosses the signal line upwards: full buy; downwards: full sell.
 use super::*;
 
-/// returns None until the reference is written
-pub fn make(_cfg: &Cfg, _c0: &RC) -> Option<Box<dyn IndRef>> {
-	None
+#[derive(Clone)]
+pub struct TrueStrengthIndex {
+	src: String,
+	zone: f64,
+	tsi: rm::Tsi,
+	sig: rm::Ema,
+	x_low: CrossD,
+	x_up: CrossD,
+	x_zero: CrossD,
+	x_sig: CrossD,
+}
+
+pub fn make(cfg: &Cfg, c0: &RC) -> Option<Box<dyn IndRef>> {
+	let src = cfg.src("source");
+	let s0 = source(c0, &src);
+	let zone = cfg.float("zone");
+	Some(Box::new(TrueStrengthIndex {
+		// period1 = long period, period2 = short period
+		tsi: rm::Tsi::new(cfg.int("period2"), cfg.int("period1"), s0.v),
+		// no movement in the prehistory: the main value is 0 there, and so is its average
+		sig: rm::Ema::new(cfg.int("period3"), 0.0),
+		// previous differences implied by the prehistory (main value 0)
+		x_low: CrossD::new(0.0 - (-zone)),
+		x_up: CrossD::new(0.0 - zone),
+		x_zero: CrossD::new(0.0),
+		x_sig: CrossD::new(0.0),
+		zone,
+		src,
+	}))
+}
+
+impl IndRef for TrueStrengthIndex {
+	fn values(&mut self, c: &RC) -> Vec<Q> {
+		let s = source(c, &self.src);
+		let tsi = self.tsi.step(s);
+		let sig = self.sig.step(tsi);
+		vec![tsi, sig]
+	}
+	fn signals(&mut self, _c: &RC, own: &[f64]) -> Vec<Sig> {
+		let (tsi, sig) = (own[0], own[1]);
+		let buy = sig_sign(self.x_low.under(tsi, -self.zone) as i32);
+		let sell = sig_sign(self.x_up.above(tsi, self.zone) as i32);
+		let s0 = sig_sub(buy, sell);
+		let s1 = sig_sign(self.x_zero.cross(tsi, 0.0));
+		let s2 = sig_sign(self.x_sig.cross(tsi, sig));
+		vec![s0, s1, s2]
+	}
+	indref!(TrueStrengthIndex);
 }
